@@ -79,7 +79,7 @@ export function tplRegex(item) {
   }
   const h = head(item);
   if (h === "lit") return item[1] === "" ? "" : "(" + escapeRegex(item[1]) + ")";
-  if (h === "oneof") return "(" + item.slice(1).map(tplRegex).filter((s) => s.length > 0).join("|") + ")";
+  if (h === "oneof") return "(" + item.slice(1).map(tplRegex).join("|") + ")";
   throw new Error("bad tpl item");
 }
 
